@@ -266,6 +266,14 @@ pub open spec fn frames_after(e: Exit, before: Seq<VString>, scopes_before: Seq<
         _ => before.len() as int,
     }}
 }}
+// the list of open block scopes (`special_scopes`) decides whether `done` closes a frame: it must never hold FEWER entries than there are open
+// block frames -- a scope instruction adds one entry, `done` removes one, `jmp_pop k` closes k frames and may drop at most k entries
+pub open spec fn scopes_ok(ret: Exit, s0: Seq<SpecialScope>, s1: Seq<SpecialScope>) -> bool {{
+    &&& ((ret is PushScope || ret is GotoPushScope) ==> s1.len() == s0.len() + 1)
+    &&& (ret is PopScope ==> s1.len() == (if s0.len() > 0 {{ s0.len() - 1 }} else {{ 0 }}))
+    &&& (ret matches Exit::GotoPopScope(_, k) ==> s1.len() + k >= s0.len())
+    &&& ((ret is Goto || ret is NoExit || ret is JumpRequest) ==> s1 == s0)
+}}
 // the loop goes on with instruction `p1` in context `c1`
 pub open spec fn next_ok(ret: Exit, c0: Ctx, s0: Seq<SpecialScope>, ptr_in: usize, len: usize, cb: &JumpCb, c1: Ctx, p1: usize) -> bool {{
     // a jump goes exactly to ptr + offset (no extra step) and stays inside the function
@@ -304,6 +312,7 @@ pub fn run_step(ret: &Exit, context: &mut Ctx, ptr_in: usize, instruction_len: u
         (*ret is PopScope && old(special_scopes)@.len() > 0 ==> frame_labels(&old(context).call_stack).len() > 0),
     ensures
         (r matches Ok(Step::Next(p1)) ==> next_ok(*ret, *old(context), old(special_scopes)@, ptr_in, instruction_len, jump_callback, *final(context), p1)),
+        (r matches Ok(Step::Next(_)) ==> scopes_ok(*ret, old(special_scopes)@, final(special_scopes)@)),
         // totality: a jump inside the function, a scope instruction or a plain instruction never fails here
         (*ret matches Exit::Goto(off) ==> (r is Ok <==> 0 <= goto_target(ptr_in, off) < instruction_len)),
         ((*ret is NoExit || *ret is PushScope || *ret is PopScope) ==> r is Ok),
@@ -323,6 +332,7 @@ pub fn run_step(ret: &Exit, context: &mut Ctx, ptr_in: usize, instruction_len: u
         invariant
             verif_once ==> (*context == *old(context) && instruction_ptr == ptr_in && special_scopes@ == old(special_scopes)@),
             !verif_once ==> next_ok(*ret, *old(context), old(special_scopes)@, ptr_in, instruction_len, jump_callback, *context, instruction_ptr),
+            !verif_once ==> scopes_ok(*ret, old(special_scopes)@, special_scopes@),
         decreases (if verif_once {{ 1int }} else {{ 0int }})
     {{
         verif_once = false;
